@@ -29,6 +29,7 @@ FRAGMENTS = [
     ("H5Appends", "gen_h5"),
     ("PSLoops", "gen_psloops"),
     ("Physics", "gen_physics"),
+    ("WakeMap", "gen_wakemap"),
 ]
 
 
